@@ -138,6 +138,7 @@ func (d *downSender) status(ctx context.Context) string {
 }
 
 func (d *downSender) AppendHeaders(ctx context.Context, headers api.HeaderMap, end bool) error {
+	d.ex.noteDown(tokOfHeaders(headers))
 	d.ex.add(fmt.Sprintf("dh:%s:%d", d.status(ctx), b2i(end)))
 	d.ex.mu.Lock()
 	d.ex.respHeaders = copyHeaders(headers)
@@ -156,6 +157,7 @@ func (d *downSender) AppendData(ctx context.Context, data buffer.IoBuffer, end b
 		d.ex.respBody = append([]byte{}, data.Bytes()...)
 		d.ex.mu.Unlock()
 	}
+	d.ex.noteDown(tokOfBody(data))
 	d.ex.add(fmt.Sprintf("dd:%d:%d", n, b2i(end)))
 	if end {
 		d.DestroyStream()
@@ -164,6 +166,7 @@ func (d *downSender) AppendData(ctx context.Context, data buffer.IoBuffer, end b
 }
 
 func (d *downSender) AppendTrailers(ctx context.Context, trailers api.HeaderMap) error {
+	d.ex.noteDown(tokOfTrailers(trailers))
 	d.ex.add("dt")
 	d.DestroyStream()
 	return nil
@@ -326,6 +329,7 @@ func (s *upStream) ResetStream(reason types.StreamResetReason) {
 		}
 	}
 	s.BaseStream.ResetStream(reason)
+	s.a.afterProxyReset()
 }
 
 // Attempt is one pool.NewStream call of an exchange.
